@@ -58,7 +58,7 @@ def find_thursday(s, rv, DAY, C1, J):
     stack, seen = [rv[1]], set()
     while stack:
         v = stack.pop()
-        if v in seen or len(seen) > 200:
+        if v in seen or len(seen) > 5000:
             continue
         seen.add(v)
         tm = D.TERM.get(v)
@@ -70,11 +70,24 @@ def find_thursday(s, rv, DAY, C1, J):
         if a is not None:
             stack.extend(y for y in a.co if isinstance(y, int))
     why = 'no value the result depends on has the form (zero-based day of the year) + 3 - (weekday of the day)'
+    # when the weekday of 1 January makes f + 3 and f + g - e the same number, n = (f + 3) - (f + 3) % 7 is kept as 7 * ((f + 3) / 7) and the
+    # result divides f + 3 directly: rebuild n from such a dividend
+    for x in sorted(cands):
+        ax = D.aff_of(x)
+        if not ax.mod and ax.co == {DAY: 1} and ax.c0 == C1 + 3:
+            q_, r_ = D.divmod_euclid(s, x, 7) if D.get_iv(s, x)[0] < 0 else D.divmod_vids(s, x, 7)
+            ql, qh = D.get_iv(s, q_)
+            n_ = D.term_vid(s, ('Sub', x, r_), 7 * ql if ql != -D.INF else -D.INF, 7 * qh if qh != D.INF else D.INF, D.aff_scale(D.aff_of(q_), 7))
+            cands.add(n_)
+            seen.add(r_)
+    # remainders modulo 7 among the values the result and the branch conditions of this path are built from
+    rems = sorted({t_[3] for v_ in (seen | cands) for t_ in D.TRIPLES.get(v_, ()) if t_[1] == 7})
     for n in sorted(cands):
         a = D.aff_of(n)
-        if a.mod or a.co.get(DAY) != 1:
+        if a.mod:
             continue
-        ds = [y for y, c in a.co.items() if y != DAY and c == -1 and isinstance(y, int)]
+        ds = [y for y, c in a.co.items() if y != DAY and c == -1 and isinstance(y, int)] if a.co.get(DAY) == 1 else []
+        ds += [r_ for r_ in rems if r_ not in ds]           # (the form may be folded, e.g. x - x % 7 kept as 7 * (x / 7): compare up to the triples)
         for d in ds:
             if not D.aff_equiv(a, D.aff_add(D.Aff({DAY: 1}, C1 + 3), D.Aff({d: 1}, 0), -1), st=s):
                 why = f'a candidate for the Thursday of the week is {a}; with the zero-based day of the year day + {C1} it is not f + 3 - d'
